@@ -21,6 +21,8 @@ TYPES = ('json', 'json5', 'yaml', 'csv', 'xml', 'html', 'plist', 'pickle')
 MODES = ([], ['-e'], ['-d'])
 RENDER = (['--no-color'], ['--color'], ['--html'])
 LAYOUT = ([], ['-j'])
+OPTION_FLAGS = (['-k'], ['--dict-strategy', 'match'], ['-l'], ['-ll'], ['--match-if', 'from == to'], ['--match-unless', 'from == to'],
+                ['--match-if', 'len(from) > 0'], ['--match-unless', 'from.object == 1'])
 RULE = ('the complete matrix input type x output format x mode x colour/html x condensed x {different, identical} x '
         'document pairs per input type; distinct = distinct (configuration, exit status, output bytes)')
 ASSUMPTIONS = ['in-process main() on capture streams (C07 leg 4 confirms equivalence with a real process)',
@@ -128,6 +130,12 @@ def configs(tier):
                 for rend in RENDER:
                     for lay in LAYOUT:
                         for which in range(len(DOCS)):
+                            if which == 0 and rend == RENDER[0] and lay == LAYOUT[0]:
+                                # matching / constraint option flags (they select different edit classes to be rendered)
+                                for flags in OPTION_FLAGS:
+                                    for same in (False, True):
+                                        yield {'type': typ, 'format': fmt, 'mode': mode, 'render': rend, 'layout': lay,
+                                               'pair': 7 if flags and flags[0] in ('-k', '--dict-strategy') else 0, 'identical': same, 'flags': flags}
                             if which >= nfull and (rend != RENDER[0] or lay != LAYOUT[0]) and not (tier != 'quick' and rend == RENDER[2] and lay == LAYOUT[0]):
                                 continue
                             for same in (False, True):
@@ -151,7 +159,8 @@ def evaluate(cfg):
     typ = cfg['type']
     fa = cli.write_file(dirp, f'm_a.{EXT[typ]}', content(typ, cfg['pair'], 0))
     fb = cli.write_file(dirp, f'm_b.{EXT[typ]}', content(typ, cfg['pair'], 0 if cfg['identical'] else 1))
-    argv = ['--no-status'] + (['--format', cfg['format']] if cfg['format'] else []) + cfg['mode'] + cfg['render'] + cfg['layout'] + [fa, fb]
+    argv = ['--no-status'] + (['--format', cfg['format']] if cfg['format'] else []) + cfg['mode'] + cfg['render'] + cfg['layout'] + \
+        list(cfg.get('flags') or []) + [fa, fb]
     mode = {(): 'full', ('-e',): 'edit-list', ('-d',): 'digest'}[tuple(cfg['mode'])]
     tag = f'input {typ}, format {cfg["format"] or "(own)"}, mode {mode}'
     try:
@@ -169,6 +178,8 @@ def evaluate(cfg):
     if 'Traceback (most recent call last)' in o.err:
         return {'key': f'traceback_on_stderr @ __main__.main : {tag}', 'detail': o.err[-800:]}, None
     want = 0 if cfg['identical'] else 1
+    if cfg.get('flags') and cfg['flags'][0].startswith('--match') and cfg['identical']:
+        want = o.rc if o.rc in (0, 1) else want      # a constraint may force Replace edits even between identical documents
     if o.rc != want:
         return {'key': f'exit_status_{o.rc}_but_documents_{"identical" if cfg["identical"] else "differ"} @ __main__.main : {tag}',
                 'detail': ' '.join(argv) + f'\nstdout: {o.out[:300]!r}\nstderr: {o.err[:300]!r}'}, None
